@@ -322,10 +322,6 @@ Definition meta_hyps (nodes : list node) : Prop :=
   (forall nd, In nd nodes -> simple_meta (n_op nd) = true) /\
   meta_typed nodes.
 
-(* the values of a run are well typed *)
-Definition vals_typed (nodes : list node) (vals : list value) : Prop :=
-  forall i nd v, nth_error nodes i = Some nd -> nth_error vals i = Some v -> has_type v (n_ty nd) = true.
-
 Theorem meta_sem_ok_simple nodes o p :
   meta_hyps nodes -> ~ bits_ops nodes -> opt_meta nodes o = Ok p -> pass_sem_ok nodes p.
 Proof.
@@ -378,7 +374,7 @@ Proof.
   exists v4. split; auto. eauto using sim_compose.
 Qed.
 
-(* F for graphs without ArrayToVector / Zip / A2B / B2A and without keyed tape operations
+(* F for graphs without ArrayToVector / Zip and without keyed tape operations
    (CuckooHash, Shard, Join, Sort, ...), with hypotheses on the INPUT graph only: the whole
    pipeline preserves values along the joined map, under the tape transported stage by stage,
    and the output node is mapped to the new output *)
@@ -387,6 +383,7 @@ Theorem optimize_sem_simple infer nodes o p tape vals :
   const_typed nodes -> few_deps nodes -> simple_ops nodes -> meta_typed nodes -> nokey nodes ->
   optimize_graph nodes o = Ok p ->
   eval_graph_nodes nodes tape = Ok vals ->
+  vals_typed nodes vals ->
   exists p1 p2 p3 p4,
     opt_const nodes o = Ok p1 /\ opt_meta (po_nodes p1) (po_output p1) = Ok p2 /\
     opt_dup (po_nodes p2) (po_output p2) = Ok p3 /\ opt_dangling (po_nodes p3) (po_output p3) = Ok p4 /\
@@ -395,15 +392,15 @@ Theorem optimize_sem_simple infer nodes o p tape vals :
                   = Ok vals' /\
                   sim nodes (po_nodes p) vals vals' (po_map p).
 Proof.
-  intros Ic Tn Ct Fd So Mt Nk H V.
+  intros Ic Tn Ct Fd So Mt Nk H V Vt.
   apply optimize_graph_inv in H as (p1 & p2 & p3 & p4 & E1 & E2 & E3 & E4 & En & Eo & Em).
   exists p1, p2, p3, p4. repeat split; auto. rewrite En, Em.
   destruct (const_preserves infer _ _ _ Ct E1) as (Ct1 & Fd1 & So1 & Nk1 & Ty1).
   destruct (Ty1 Ic Tn) as (Tn1 & Mt1).
   destruct (const_sem_transport _ _ _ _ _ Ct E1 V) as (v1 & V1 & S1 & _).
   pose proof V1 as V1v. apply eval_graph_nodes_valuation in V1v.
-  destruct (meta_sem_thm infer _ _ _ _ _ V1v Ct1 (Fd1 Fd) (simple_ops_simple _ (So1 So))
-                         (fun B => False_ind _ (simple_ops_no_bits _ (So1 So) B)) (Mt1 Mt) E2) as (F2 & Tn2 & _ & K2).
+  destruct (meta_sem_thm infer _ _ _ _ _ V1v Ct1 (Fd1 Fd) (So1 So)
+                         (fun _ => const_preserves_vals_typed _ _ _ _ _ Ct E1 Vt S1) (Mt1 Mt) E2) as (F2 & Tn2 & _ & K2).
   destruct (K2 _ (transport_compat _ _ _ (transport (po_map p1) tape) F2)) as (v2 & V2v & S2).
   pose proof V2v as V2. apply eval_graph_nodes_valuation in V2.
   pose proof (meta_preserves_nokey _ _ _ E2 (Nk1 Nk)) as Nk2.
@@ -452,18 +449,18 @@ Theorem optimize_output infer nodes o p :
   infer_const infer -> typed_nodes infer nodes ->
   const_typed nodes -> few_deps nodes -> simple_ops nodes -> meta_typed nodes ->
   optimize_graph nodes o = Ok p ->
-  forall tape vals, eval_graph_nodes nodes tape = Ok vals ->
+  forall tape vals, eval_graph_nodes nodes tape = Ok vals -> vals_typed nodes vals ->
   exists x j, o = Some x /\ 0 <= x < Z.of_nat (length nodes) /\ po_output p = Some j /\
               nth_error (po_map p) (Z.to_nat x) = Some (Some j).
 Proof.
-  intros Ic Tn Ct Fd So Mt H tape vals V.
+  intros Ic Tn Ct Fd So Mt H tape vals V Vt.
   apply optimize_graph_inv in H as (p1 & p2 & p3 & p4 & E1 & E2 & E3 & E4 & En & Eo & Em).
   destruct (const_preserves infer _ _ _ Ct E1) as (Ct1 & Fd1 & So1 & Nk1 & Ty1).
   destruct (Ty1 Ic Tn) as (Tn1 & Mt1).
   destruct (const_sem_transport _ _ _ _ _ Ct E1 V) as (v1 & V1 & S1 & _).
   apply eval_graph_nodes_valuation in V1.
-  destruct (meta_sem_thm infer _ _ _ _ _ V1 Ct1 (Fd1 Fd) (simple_ops_simple _ (So1 So))
-                         (fun B => False_ind _ (simple_ops_no_bits _ (So1 So) B)) (Mt1 Mt) E2) as (_ & Tn2 & _ & _).
+  destruct (meta_sem_thm infer _ _ _ _ _ V1 Ct1 (Fd1 Fd) (So1 So)
+                         (fun _ => const_preserves_vals_typed _ _ _ _ _ Ct E1 Vt S1) (Mt1 Mt) E2) as (_ & Tn2 & _ & _).
   destruct (opt_dangling_some _ _ _ E4) as (x3 & Ex3).
   destruct (dup_output_some _ _ _ _ _ (Tn2 Tn1) E3 Ex3) as (x2 & Ex2 & R2 & M3).
   destruct (meta_output_some _ _ _ _ E2 Ex2) as (x1 & Ex1 & R1 & M2).
@@ -484,6 +481,7 @@ Theorem optimize_sem_simple_output infer nodes o p tape vals :
   const_typed nodes -> few_deps nodes -> simple_ops nodes -> meta_typed nodes -> nokey nodes ->
   optimize_graph nodes o = Ok p ->
   eval_graph_nodes nodes tape = Ok vals ->
+  vals_typed nodes vals ->
   exists p1 p2 p3 p4,
     opt_const nodes o = Ok p1 /\ opt_meta (po_nodes p1) (po_output p1) = Ok p2 /\
     opt_dup (po_nodes p2) (po_output p2) = Ok p3 /\ opt_dangling (po_nodes p3) (po_output p3) = Ok p4 /\
@@ -495,11 +493,11 @@ Theorem optimize_sem_simple_output infer nodes o p tape vals :
                                 nth_error (po_map p) (Z.to_nat x) = Some (Some j) /\
                                 nth_error vals (Z.to_nat x) = Some v /\ nth_error vals' (Z.to_nat j) = Some v.
 Proof.
-  intros Ic Tn Ct Fd So Mt Nk H V.
-  destruct (optimize_sem_simple infer _ _ _ _ _ Ic Tn Ct Fd So Mt Nk H V)
+  intros Ic Tn Ct Fd So Mt Nk H V Vt.
+  destruct (optimize_sem_simple infer _ _ _ _ _ Ic Tn Ct Fd So Mt Nk H V Vt)
     as (p1 & p2 & p3 & p4 & E1 & E2 & E3 & E4 & vals' & V' & S).
   exists p1, p2, p3, p4. repeat split; auto. exists vals'. split; auto. split; auto.
-  destruct (optimize_output infer _ _ _ Ic Tn Ct Fd So Mt H _ _ V) as (x & j & Ex & R & Ej & M).
+  destruct (optimize_output infer _ _ _ Ic Tn Ct Fd So Mt H _ _ V Vt) as (x & j & Ex & R & Ej & M).
   destruct (S _ _ M) as (J & (v & V1 & V2) & _).
   exists x, j, v. repeat split; auto. lia.
 Qed.
@@ -531,16 +529,17 @@ Theorem optimize_annots infer nodes o p tape vals :
   const_typed nodes -> few_deps nodes -> simple_ops nodes -> meta_typed nodes ->
   optimize_graph nodes o = Ok p ->
   eval_graph_nodes nodes tape = Ok vals ->
+  vals_typed nodes vals ->
   annots_incl nodes (po_nodes p) (po_map p).
 Proof.
-  intros Ic Tn Ct Fd So Mt H V.
+  intros Ic Tn Ct Fd So Mt H V Vt.
   apply optimize_graph_inv in H as (p1 & p2 & p3 & p4 & E1 & E2 & E3 & E4 & En & Eo & Em).
   destruct (const_preserves infer _ _ _ Ct E1) as (Ct1 & Fd1 & So1 & Nk1 & Ty1).
   destruct (Ty1 Ic Tn) as (Tn1 & Mt1).
   destruct (const_sem_transport _ _ _ _ _ Ct E1 V) as (v1 & V1 & S1 & _).
   apply eval_graph_nodes_valuation in V1.
-  destruct (meta_sem_thm infer _ _ _ _ _ V1 Ct1 (Fd1 Fd) (simple_ops_simple _ (So1 So))
-                         (fun B => False_ind _ (simple_ops_no_bits _ (So1 So) B)) (Mt1 Mt) E2) as (_ & Tn2 & A2 & _).
+  destruct (meta_sem_thm infer _ _ _ _ _ V1 Ct1 (Fd1 Fd) (So1 So)
+                         (fun _ => const_preserves_vals_typed _ _ _ _ _ Ct E1 Vt S1) (Mt1 Mt) E2) as (_ & Tn2 & A2 & _).
   pose proof (const_struct_thm _ _ _ Ct E1) as (_ & B1 & K1 & _).
   pose proof (dup_struct_thm from_tape infer _ _ _ (Tn2 Tn1) E3) as (_ & B3 & K3 & _).
   destruct (opt_dangling_some _ _ _ E4) as (x & Ex). rewrite Ex in E4.
